@@ -2,7 +2,7 @@
 Byte-level primitives of the code: `_pack_remaining_length`, `VariableByteIntegers`,
 `struct.pack("!H"/"!L")`, `_pack_str16`, `writeUTF/readUTF`, `writeBytes/readBytes`.
 -/
-import Paho.Gen.Consts
+import Paho.Gen.BytesConsts
 import Paho.Model.Validate
 namespace Paho
 
